@@ -33,15 +33,50 @@ const memLimitKB = 2 << 20 // workers run under ulimit -v 2 GiB
 
 // ---- jobs ----
 
+// A job is a range [From, To) of the linearised evaluations index = input number x cells + cell over its
+// inputs (To = 0: everything). A worker that dies leaves the index it was evaluating in its journal, so the
+// coordinator convicts exactly that evaluation and re-issues the rest of the range.
 type job struct {
-	Domain string   `json:"d"`
-	Prefix string   `json:"p,omitempty"` // Sigma family: the inputs are Prefix + SigmaString(i), Lo <= i < Hi
-	Lo     int      `json:"lo,omitempty"`
-	Hi     int      `json:"hi,omitempty"`
-	Inputs [][]byte `json:"in,omitempty"` // explicit inputs
-	Bomb   string   `json:"b,omitempty"`  // generated input "kind:depth"
-	Cell   int      `json:"c"`            // -1: every cell of the domain
-	Meta   string   `json:"m,omitempty"`  // provenance of a single explicit input (kept for signatures)
+	ID      uint64   `json:"id"`
+	Domain  string   `json:"d"`
+	Prefix  string   `json:"p,omitempty"` // Sigma family: the inputs are Prefix + SigmaString(i), Lo <= i < Hi
+	Lo      int      `json:"lo,omitempty"`
+	Hi      int      `json:"hi,omitempty"`
+	Inputs  [][]byte `json:"in,omitempty"` // explicit inputs
+	Bomb    string   `json:"b,omitempty"`  // generated input "kind:depth"
+	From    int      `json:"from,omitempty"`
+	To      int      `json:"to,omitempty"`
+	Exact   bool     `json:"x,omitempty"`  // measure the allocation of every evaluation exactly
+	NoCount bool     `json:"nc,omitempty"` // the inputs of this job are counted by the coordinator
+	Meta    string   `json:"m,omitempty"`  // provenance of a single explicit input (kept for signatures)
+}
+
+func (j job) bounds() (from, to int) {
+	to = j.To
+	if to == 0 {
+		to = j.nInputs() * nCells(j.Domain)
+	}
+	return j.From, to
+}
+
+func (j job) nInputs() int {
+	switch {
+	case j.Bomb != "":
+		return 1
+	case j.Hi > j.Lo:
+		return j.Hi - j.Lo
+	}
+	return len(j.Inputs)
+}
+
+func (j job) input(i int) []byte {
+	switch {
+	case j.Bomb != "":
+		return bombBytes(j.Bomb)
+	case j.Hi > j.Lo:
+		return append([]byte(j.Prefix), corpus.SigmaString(j.Lo+i)...)
+	}
+	return j.Inputs[i]
 }
 
 func bombBytes(spec string) []byte {
@@ -72,20 +107,6 @@ func bombBytes(spec string) []byte {
 		panic("bomb " + spec)
 	}
 	return []byte(s)
-}
-
-func inputsOf(j job) [][]byte {
-	switch {
-	case j.Bomb != "":
-		return [][]byte{bombBytes(j.Bomb)}
-	case j.Hi > j.Lo:
-		out := make([][]byte, 0, j.Hi-j.Lo)
-		for i := j.Lo; i < j.Hi; i++ {
-			out = append(out, append([]byte(j.Prefix), corpus.SigmaString(i)...))
-		}
-		return out
-	}
-	return j.Inputs
 }
 
 // ---- worker ----
